@@ -47,6 +47,13 @@ class SPath(SOpaque):
                 self.trace.append(("write", self.parts, a[0] if a else k.get("data")))
                 return 0
             return SFunc("model", write)
+        if name == "read_text":
+            # text-mode read: universal newlines and the codec stand between the bytes on disk and the value returned, so the
+            # value says nothing about byte equality with what would be written (an unknown string)
+            def read_text(I2, a, k):
+                self.trace.append(("read", self.parts))
+                return SStr(I2.fresh("text_read_from_" + "_".join(map(str, self.parts[-1:])), z3.StringSort()))
+            return SFunc("model", read_text)
         # read-only queries of the file system: whatever the code asks, the answer is unconstrained (an existing project
         # directory may be empty, hold dot files, user files ...), except that it is consistent with `project_dir_exists`
         if name in ("exists", "is_dir", "is_file"):
@@ -248,7 +255,29 @@ def build_contract(meta_name):
         # and every operation of every tag got its file
         return all(any(x is y for y in seen_api) for x in expected_api)
 
+    def all_written(ctx):
+        """every file a fresh generation creates is (re)written by every build that is not refused: regenerating converges to the
+        fresh tree byte for byte (a text-mode comparison with the old file cannot establish byte equality)"""
+        from openapi_python_client.config import MetaType
+        i = ctx.inputs
+        pkg = i["package"]
+        tr = i["trace"]
+        if any(t[0] == "mkdir-failed" for t in tr) and len([t for t in tr if t[0] != "read"]) == 1:
+            return True
+        written = {t[1] for t in tr if t[0] == "write"}
+        want = [pkg + (f,) for f in ("__init__.py", "types.py", "client.py", "errors.py")]
+        want += [pkg + ("models", "__init__.py"), pkg + ("api", "__init__.py")]
+        meta = i["meta"]
+        if meta is not MetaType.NONE:
+            want += [pkg + ("py.typed",), ("project_dir", "README.md"), ("project_dir", ".gitignore")]
+            want.append(("project_dir", "setup.py") if meta is MetaType.SETUP else ("project_dir", "pyproject.toml"))
+        return all(w in written for w in want)
+
     clauses = [
+        Clause("every-generated-file-is-rewritten", all_written,
+               statement="a build that is not refused writes every file a fresh generation would create (package __init__ / types / "
+                         "client / errors, models/__init__, api/__init__, and for a project: py.typed, README.md, .gitignore, "
+                         "pyproject.toml or setup.py): an overwrite converges to the fresh tree", props=["C19"]),
         Clause("every-module-is-the-rendering-of-its-own-record", own_rendering,
                statement="api/<tag>/<module>.py is written for every operation of every tag and holds the rendering of "
                          "endpoint_module.py.jinja for exactly that operation (module names are unique within a tag only: two tags "
